@@ -584,3 +584,204 @@ def c11(prop, tier, seed, wd, explore, limit, kinds, we):
             "at the same time) under seeded delay plans, and pool lifecycles whose tasks touch only their own state; TSan report blocks are counted and de-duplicated by the pair of top repository frames; "
             "distinct = (input, seed), non-trivial = completed")
     return conc_finish(prop, tier, seed, run, wall, rule, explore, we, ("blocks_ge2",), {"max_concurrent_builders": run.counters.get("max_concurrent_builders", 0)})
+
+# ---------------------------------------------------------------------------------------------------- components (comp_driver)
+class CompCase(PoolCase):
+    def __init__(self, mode, flavor, seed, args, tag=""):
+        PoolCase.__init__(self, mode, flavor, seed, args)
+        self.kind = "COMP:" + mode + ((":" + tag) if tag else "")
+    def describe(self):
+        return {"driver": "comp_driver", "mode": self.mode, "flavor": self.flavor, "seed": self.seed, "args": self.args}
+
+class CompRun(PoolRun):
+    def run_pool_case(self, case):
+        cid = self.runner.next_id()
+        outp = os.path.join(self.workdir, "k%d.out" % cid)
+        res = self.runner.run([binpath(case.flavor, "comp_driver"), "--mode", case.mode, "--seed", str(case.seed)] + case.args, cpu_s=3000, wall_s=3600, out_path=None)
+        return case, res
+
+    def record_pool(self, tup):
+        case, res = tup
+        prop = self.prop
+        out = res["out"]
+        with self.lock:
+            self.stat["cases"] += 1
+            self.per_kind[case.kind] += 1
+            self.per_state[case.flavor] += 1
+            self.results.append((case, res))
+            for k, v in out["counters"].items():
+                self.counters[k] += v
+            if len(self.samples) < 10 and out["samples"]:
+                self.samples.append(out["samples"][0])
+            fs = []
+            for v in out["viol"]:
+                fs.append((v["props"], dict(kind=case.kind, state=case.flavor, op=v["op"], fclass=v["fclass"], site="oracle", qcls=v["qcls"]), v["detail"], ""))
+            if res["status"] in ("crash", "wall"):
+                fclass, site, op, props, detail = crash_signature(res)
+                if fclass == "wall-timeout":
+                    self.stat["inconclusive_wall"] += 1
+                else:
+                    fs.append((sorted(set(props) | {"C07", prop}), dict(kind=case.kind, state=case.flavor, op=op, fclass=fclass, site=site, qcls="-"), detail, res["stderr"][:5000]))
+            if res["status"] == "ok":
+                self.stat["completed"] += 1
+                self.all_keys.add(case.key())
+                self.nontrivial_keys.add(case.key())
+            elif res["status"] == "harness":
+                self.stat["harness_errors"] += 1
+            else:
+                self.stat["crashed"] += 1
+            ctx = case.ctx()
+            seen = set()
+            for props, sig, detail, extra in fs:
+                if prop not in props:
+                    continue
+                sig = dict(sig, property=prop)
+                skey = "|".join(sig[k] for k in ("property", "kind", "state", "op", "fclass", "site", "qcls"))
+                if skey in seen:
+                    continue
+                seen.add(skey)
+                kn = self.known.match(sig, ctx)
+                if kn:
+                    self.known_seen[kn["id"]] += 1
+                    self.stat["known_observations"] += 1
+                    continue
+                e = self.findings.get(skey)
+                if e is None:
+                    self.findings[skey] = {"sig": sig, "count": 1, "case": case, "detail": detail, "stderr": extra, "crash": False}
+                else:
+                    e["count"] += 1
+
+def comp_check(prop, tier, seed, wd, explore, we, cases, rule, required=(), extra=None, dict_cases=None, dict_nt=None):
+    flavors = sorted(set(c.flavor for c in cases) | ({"asan"} if dict_cases else set()))
+    for f in flavors:
+        build(f)
+    run = CompRun(prop, tier, seed, wd, Known())
+    t0 = time.time()
+    run.run_pool_all(cases)
+    if dict_cases:   # dictionary-level confirmation with the same texts
+        DictRun.run_all(run, dict_cases, dict_nt)
+    return finish(prop, tier, seed, run, time.time() - t0, rule, explore=explore, write_evidence=we, required_classes=required, extra_cov=extra,
+                  assumptions=["oracles are the plain definitions (shadow arrays, naive rank/select, symbol-for-symbol expansion)", "gcc 12 ASan/UBSan runtime reports are accurate for the code reached",
+                               "component internals are reached through the public component APIs (protected members of RePair/DAC through a test-only access define)"])
+
+def spread(mode, flavor, seed, nproc, cases_each, extra_args=(), tag=""):
+    return [CompCase(mode, flavor, gen.splitmix(seed, mode + tag, k), ["--cases", str(cases_each)] + list(extra_args), tag) for k in range(nproc)]
+
+@register("C17")
+def c17(prop, tier, seed, wd, explore, limit, kinds, we):
+    cases = []
+    exhaustive = tier == "thorough"
+    if tier == "quick":
+        step = (1 << 22) // 8
+        for k in range(8):   # all values below 2^22, every power-of-128 boundary +-3, random
+            cases.append(CompCase("vbyte", "asan", gen.splitmix(seed, 1, k), ["--from", str(k * step), "--to", str((k + 1) * step), "--random", "300000"]))
+    else:
+        step = (1 << 32) // 64
+        for k in range(64):  # all 2^32 values
+            cases.append(CompCase("vbyte", "fast", gen.splitmix(seed, 1, k), ["--from", str(k * step), "--to", str((k + 1) * step if k < 63 else (1 << 32)), "--random", "1000"]))
+    big = ["--big"] if tier == "thorough" else []
+    cases += spread("logseq", "asan", seed, 16, 640 if tier == "quick" else 6400, big)
+    cases += spread("dacvls", "asan", seed, 16, 400 if tier == "quick" else 4000, big)
+    cases += spread("dacbvls", "asan", seed, 8, 300 if tier == "quick" else 3000, big)
+    # dictionary-level: what the RPDAC / HASHRPDAC / HASHUFFDAC constructors pass to the DACs
+    dc = P.basic_cases(prop, seed, tier, ops=("locate", "extract"), kinds=["RPDAC", "HASHRPDAC", "HASHUFFDAC", "BLOCKS"], per_input_states=1, n_random=22 if tier == "quick" else 200)
+    for c in dc:
+        pass
+    rule = ("VByte: encode->decode identity and equal byte counts for every value below 2^22 (quick) / all 2^32 values (thorough), boundaries and random values; LogSequence: shadow-array model under random writes for widths 1..64 "
+            "with every write re-read together with its neighbours, vector constructor, save/load with exact consumption; DAC_VLS / DAC_BVLS: random lists of non-empty sequences (all length 1, one-symbol last sequence, maximal "
+            "sequences) checked by access and access_next walks, built and reloaded; plus RPDAC / HASHRPDAC / HASHUFFDAC / block dictionaries (what their constructors pass to the DACs) against the model. "
+            "A case is one comp_driver process (seeded) or one dictionary case")
+    def dnt(case, cnt):
+        return len(case.S) >= 2
+    for f in sorted(set(c.flavor for c in cases) | {"asan"}):
+        build(f)
+    run = CompRun(prop, tier, seed, wd, Known())
+    t0 = time.time()
+    run.run_pool_all(cases)
+    retag(run, "C17")
+    DictRun.run_all(run, dc, dnt)
+    return finish(prop, tier, seed, run, time.time() - t0, rule, explore=explore, write_evidence=we, required_classes=("width_64", "width_33_63", "all_len1", "last_seq_single_symbol"), extra_cov={"vbyte_all_2p32_values": exhaustive},
+                  assumptions=["oracles are the plain definitions (identity, shadow array, stored sequence lists, sorted-vector dictionary model)", "gcc 12 ASan/UBSan runtime reports are accurate for the code reached"])
+
+def retag(run, prop):
+    """wrong answers of the dictionary-level confirmation cases count for the component property as well"""
+    orig_extract = DictRun.extract_findings
+    def ef(self, case, res):
+        fs = orig_extract(self, case, res)
+        for f in fs:
+            if prop not in f["props"]:
+                f["props"] = list(f["props"]) + [prop]
+        return fs
+    run.extract_findings = ef.__get__(run, type(run))
+
+@register("C18")
+def c18(prop, tier, seed, wd, explore, limit, kinds, we):
+    cases = spread("codes", "asan", seed, 16, 150 if tier == "quick" else 2000)
+    # decode(encode) through the real users of the chunk table, on texts realising chosen frequency shapes
+    HT = ["HTFC", "HHTFC", "RPHTFC", "HASHHF", "HASHUFFDAC"]
+    dc = P.basic_cases(prop, seed, tier, ops=("locate", "extract", "extractTable"), kinds=HT, per_input_states=1, families=["skewed", "uniform2", "uniform253", "lcp128x", "repetitive", "numerals", "extremes", "len1", "mixed", "words", "longshort"],
+                       n_random=33 if tier == "quick" else 300, corner=True)
+    dc += P.numeral_sweep(prop, seed, tier, ("locate", "extract"), kinds=("HTFC", "HHTFC"))
+    for c in dc:
+        pass
+    rule = ("code tables: Hu-Tucker and Huffman tables for seeded frequency vectors of 9 shapes (uniform, Zipf, geometric, Fibonacci-like, one dominant symbol, random with the +1 floor, two-level, text-like, few symbols) must be "
+            "prefix-free (pairwise), complete (Kraft sum 1) and, for Hu-Tucker, strictly increasing as left-aligned bit strings; decode(encode) is checked through HTFC / HHTFC / RPHTFC / HASHHF / HASHUFFDAC dictionaries built on "
+            "texts of skewed, tiny-alphabet, 253-symbol, long-shared-prefix and numeral shapes (locate/extract/table against the model); a case is one comp_driver process or one dictionary case")
+    def dnt(case, cnt):
+        return len(case.S) >= 2
+    build("asan")
+    run = CompRun(prop, tier, seed, wd, Known())
+    t0 = time.time()
+    run.run_pool_all(cases)
+    # wrong answers of the Huffman / Hu-Tucker coded kinds are C18 violations here: re-tag
+    run18 = run
+    orig_extract = DictRun.extract_findings
+    def ef(self, case, res):
+        fs = orig_extract(self, case, res)
+        for f in fs:
+            if "C18" not in f["props"]:
+                f["props"] = list(f["props"]) + ["C18"]
+        return fs
+    run.extract_findings = ef.__get__(run, CompRun)
+    DictRun.run_all(run, dc, dnt)
+    return finish(prop, tier, seed, run, time.time() - t0, rule, explore=explore, write_evidence=we, required_classes=("shape_fibonacci", "shape_dominant", "shape_zipf", "codeword_gt16"),
+                  assumptions=["oracles are the plain definitions of prefix-freeness / completeness / alphabetic order and the sorted-vector dictionary model", "frequency vectors whose optimal code needs more than 32 bits are skipped and counted"])
+
+@register("C19")
+def c19(prop, tier, seed, wd, explore, limit, kinds, we):
+    big = ["--big"] if tier == "thorough" else []
+    cases = []
+    for v in ("rg", "rrr", "sdarray", "darray"):
+        cases += spread("bitseq", "asan", seed * 7 + len(v), 8, 400 if tier == "quick" else 3000, ["--variants", v] + big, tag=v)
+    cases += spread("wt", "asan", seed, 16, 40 if tier == "quick" else 400, big)
+    rule = ("bit vectors of 10 shapes (all-0, all-1, single 1/0, alternating, runs around multiples of 15, sparse, dense, half, block-uniform) and lengths around multiples of 15/32/64 and random: access/rank0/rank1 at every position and "
+            "select0/select1 for every j against prefix counts, for BitSequenceRG (factors 1..40), BitSequenceRRR (rates 1..128 incl. odd ones), SDArray and DArray, built and reloaded through BitSequence::load; WaveletTree (Huffman shape, "
+            "identity mapper, RG/RRR bitmaps) and WaveletTreeNoptrs: access/rank/select against position lists, built and reloaded; a case is one comp_driver process")
+    return comp_check(prop, tier, seed, wd, explore, we, cases, rule, required=("bitvec_all0", "bitvec_all1", "bitvec_block_uniform", "bitvec_len_mod32_0", "bitvec_len_mod15_0", "sigma_1", "sigma_256"))
+
+@register("C20")
+def c20(prop, tier, seed, wd, explore, limit, kinds, we):
+    big = ["--big"] if tier == "thorough" else []
+    cases = spread("repair", "asan", seed, 16, 150 if tier == "quick" else 1500, big)
+    dc = P.basic_cases(prop, seed, tier, ops=("locate", "extract"), kinds=["RPDAC", "RPFC", "RPHTFC", "HASHRPF", "HASHRPDAC"], per_input_states=1, families=["repetitive", "copies", "near", "norepeat", "chain", "uniform2", "len1", "last_single", "urls"],
+                       n_random=27 if tier == "quick" else 250)
+    rule = ("Re-Pair on integer sequences of 9 shapes (no repeated pair, one string, runs, abab, Fibonacci words, copies, near-identical strings, random over 2 / 254 symbols): the caller's array is walked the way the dictionaries' "
+            "compaction loops do and expanded symbol for symbol against the original; no rule side is 0 or beyond terminals+rules; getBits suffices; expandRule agrees; save/loadNoSeq reproduces the rule table; "
+            "plus the five Re-Pair based dictionary kinds on the same kinds of text against the model; a case is one comp_driver process or one dictionary case")
+    def dnt(case, cnt):
+        return len(case.S) >= 2
+    build("asan")
+    run = CompRun(prop, tier, seed, wd, Known())
+    t0 = time.time()
+    run.run_pool_all(cases)
+    orig_extract = DictRun.extract_findings
+    def ef(self, case, res):
+        fs = orig_extract(self, case, res)
+        for f in fs:
+            if "C20" not in f["props"]:
+                f["props"] = list(f["props"]) + ["C20"]
+        return fs
+    run.extract_findings = ef.__get__(run, CompRun)
+    DictRun.run_all(run, dc, dnt)
+    return finish(prop, tier, seed, run, time.time() - t0, rule, explore=explore, write_evidence=we, required_classes=("repair_no_repeated_pair", "repair_fibonacci", "repair_run", "rules_0"),
+                  assumptions=["the oracle is symbol-for-symbol expansion of the grammar with an explicit stack and a cycle guard", "RePair internals (G, terminals, rules) are read through a test-only access define"])
